@@ -19,6 +19,7 @@ META = {
              "spectrum (+-20 % of the dissipation). Non-trivial = the balance has a root in (2,40) m/s and the estimate "
              "is finite; distinct = sha1 of the case."),
     "assumptions": [
+        "in half of the cases the source-term / balance objects have been used before on a spectrum with another grid of the same shape (object reuse); every clause must hold regardless",
         "balance B(U) = sum_{f,theta} S_in(U)*df*dtheta + bulk dissipation - sum_{S_in>0} dE/dt*df*dtheta evaluated through the public classes (implicit roughness); root must be bracketed: B(U-0.05)*B(U+0.05) <= 0 (solver step tolerance 0.01 m/s x5); points where B(U+-0.05) is undefined (NaN roughness) are skipped and counted",
         "reported direction equals Dissipation.mean_direction_degrees (1e-9 deg) and an independent atan2 of the (-S_ds)-weighted wavenumber vector (1e-6 deg in deep water; 0.1 deg at finite depth because the library's wavenumbers carry its 1e-3 solver tolerance)",
         "non-degeneracy (equilibrium-range first guess only, as the property states): B(U_lo) < 0 < B(40) for some defined U_lo in {2,5,10} implies a finite estimate",
@@ -37,7 +38,8 @@ def case(draw):
               "guess": draw(st.sampled_from(["equilibrium", "equilibrium", "arbitrary"])),
               "guess_u10": [draw(fl(1.0, 30.0)) for _ in c["points"]],
               "dedt_fraction": draw(st.sampled_from([0.0, 0.0, 0.2, -0.2])),
-              "twin": draw(st.integers(0, 3)) == 0})
+              "twin": draw(st.integers(0, 3)) == 0,
+              "reuse_terms": draw(st.booleans())})
     return c
 
 
@@ -47,6 +49,8 @@ def run(c):
     from ocean_science_utilities.wavephysics.windestimate import estimate_u10_from_source_terms
     bal = create_balance("st4", c["dissipation"])
     gen, dis = bal.generation, bal.dissipation
+    if c.get("reuse_terms"):
+        W.prime_terms(c, gen, dis, balance=bal)
     f, d = W.axes(c)
     df, dd = W.steps(c)
     E = W.densities(c)
@@ -68,6 +72,8 @@ def run(c):
     Dir = np.asarray(res["direction"].values, dtype=float)
     require(U.shape == (n,) and Dir.shape == (n,), "output_shape", f"{U.shape}")
     classes = ["dissipation_" + c["dissipation"], "guess_" + c["guess"]]
+    if c.get("reuse_terms"):
+        classes.append("balance_used_before_on_another_grid_of_the_same_shape")
     if dspec is not None:
         classes.append("with_rate_of_change")
 
